@@ -118,7 +118,7 @@ def unit_capability_flags():
 
 # ---- expression algebra ----------------------------------------------------------------------------
 LEAF_KINDS = {"mv_only": dict(with_rmm=False, with_mm=False), "mv_rmv": dict(with_rmm=True, with_mm=False),
-              "all": dict(with_rmm=True, with_mm=True)}
+              "all": dict(with_rmm=True, with_mm=True), "mv_mm": dict(with_rmm=False, with_mm=True)}
 
 
 def _leaf(name, kind, p, q, batch, hermitian=False):
@@ -244,27 +244,33 @@ def unit_fallbacks(complex_=False):
         p, q, b, r = fresh_int("p"), fresh_int("q"), fresh_int("b"), fresh_int("r")
         for d in (p, q, b, r):
             c.assume(d.e >= 1)
-        kind = ["mv_only", "mv_rmv", "all"][c.choose(3, "kind")]
+        kind = ["mv_only", "mv_rmv", "all", "mv_mm"][c.choose(4, "kind")]
         A = _leaf("A", kind, p, q, (b,))
         dtp = st.complex128 if complex_ else st.float64
         xq = st.vec("xq", (b, q), (1,), dtype=dtp)
         xp = st.vec("xp", (b, p), (1,), dtype=dtp)
         Xq = st.vec("Xq", (b, q, r), (1,), dtype=dtp)
         Xp = st.vec("Xp", (b, p, r), (1,), dtype=dtp)
-        with st.no_grad():
-            c.prove("mv", A.mv(xq).v.eq(xq.v.apply("A")))
-            c.prove("rmv(adjoint_trick_when__rmv_is_missing)", A.rmv(xp).v.eq(xp.v.apply("A^H")))
-            mm = A.mm(Xq)
-            c.prove("mm_is_mv_column_by_column", mm.v.eq(Xq.v.apply("A")))
-            c.check("mm_shape", mm.shape == (b, p, r) and mm.vaxes == (1,))
-            rmm = A.rmm(Xp)
-            c.prove("rmm_is_rmv_column_by_column", rmm.v.eq(Xp.v.apply("A^H")))
-            c.check("rmm_shape", rmm.shape == (b, q, r) and rmm.vaxes == (1,))
-            fm = A.fullmatrix()
-            c.check("fullmatrix_shape", fm.shape == (b, p, q))
+        try:
+            with st.no_grad():
+                c.prove("mv", A.mv(xq).v.eq(xq.v.apply("A")))
+                c.prove("rmv(adjoint_trick_when__rmv_is_missing)", A.rmv(xp).v.eq(xp.v.apply("A^H")))
+                mm = A.mm(Xq)
+                c.prove("mm_is_mv_column_by_column", mm.v.eq(Xq.v.apply("A")))
+                c.check("mm_shape", mm.shape == (b, p, r) and mm.vaxes == (1,))
+                rmm = A.rmm(Xp)
+                c.prove("rmm_is_rmv_column_by_column", rmm.v.eq(Xp.v.apply("A^H")))
+                c.check("rmm_shape", rmm.shape == (b, q, r) and rmm.vaxes == (1,))
+                fm = A.fullmatrix()
+                c.check("fullmatrix_shape", fm.shape == (b, p, q))
+            c.ok("every_public_product_is_available_whatever_subset_of_methods_the_class_defines[%s]" % kind)
+        except (NotImplementedError, RuntimeError) as ex:
+            c.fail("every_public_product_is_available_whatever_subset_of_methods_the_class_defines[%s]" % kind,
+                   "raises %s: %s" % (type(ex).__name__, str(ex)[:150]))
+            return
         # differentiability of the fall-backs: under grad mode the products stay connected to the operator's parameters,
         # whether or not the vector itself requires grad (the adjoint trick records its inner pull-back iff grad mode)
-        if kind == "mv_only":
+        if kind in ("mv_only", "mv_mm"):
             for gm in (True, False):
                 n0 = len(c.calls)
                 with (st.enable_grad() if gm else st.no_grad()):
@@ -306,6 +312,9 @@ def unit_validation():
             ("matmul_shape_mismatch", lambda: cls("A", n, ()).matmul(cls("B", n, (), m=m_)), RuntimeError),
             ("add_shape_mismatch", lambda: cls("A", n, ()) + cls("B", m_, ()), RuntimeError),
             ("sub_shape_mismatch", lambda: cls("A", n, ()) - cls("B", m_, ()), RuntimeError),
+            ("add_row_count_mismatch", lambda: cls("A", n, (), m=n) + cls("B", n, (), m=m_), RuntimeError),
+            ("add_column_count_mismatch", lambda: cls("A", n, (), m=n) + cls("B", m_, (), m=n), RuntimeError),
+            ("sub_row_count_mismatch", lambda: cls("A", n, (), m=n) - cls("B", n, (), m=m_), RuntimeError),
             ("add_non_operator", lambda: cls("A", n, ()) + 3, AssertionError),
             ("mul_non_number", lambda: cls("A", n, ()) * "x", TypeError),
         ):
